@@ -1,5 +1,6 @@
 import MosnVerif.Lemmas.WeightedCluster
 import MosnVerif.Lemmas.EDF
+import MosnVerif.Lemmas.EdfHeap
 /-!
 # C06 — configured weights are honoured exactly (property theorems only)
 -/
@@ -138,5 +139,39 @@ example : (((refresh (wrrWeight [1, 2]) 2 [none]).run (wrrWeight [1, 2]) [some 1
   decide +kernel
 
 end EDF
+
+/-! ## the array heap of `edfheap.go` under the regenerated order `edfEntryLess` -/
+section Heap
+open MosnVerif.Model MosnVerif.Model.EdfHeap
+
+/-- **heap_peek_min**: in a heap-ordered array `Peek` (cell 0) is a minimum of `edfEntryLess`: no queued entry is
+less than it — earliest deadline, and among equal deadlines the earliest queued. -/
+theorem heap_peek_min (h : Heap EDF.Entry) (hord : Ordered EDF.less h.elements h.size) (k : Nat) (hk : k < h.size) :
+    EDF.less (h.elements k) (peek h) = false :=
+  root_min less_weakOrder h.elements h.size hord k hk
+
+/-- **heap_fix_root**: after the root's entry was replaced by anything (`NextAndPush` raises its deadline and
+queuedTime in place), `Fix(0)` — `fixDown`, else `fixUp`, as written with the hole technique — yields a heap-ordered
+array with the same size and the same contents. -/
+theorem heap_fix_root (h : Heap EDF.Entry) (e' : EDF.Entry) (hord : Ordered EDF.less h.elements h.size) (hs : 0 < h.size) :
+    let g := fix EDF.less { h with elements := upd h.elements 0 e' } 0
+    Ordered EDF.less g.elements g.size ∧ g.size = h.size ∧ SameSet (upd h.elements 0 e') g.elements h.size :=
+  fix_root_spec less_weakOrder h e' hord hs
+
+/-- **heap_push**: `Push` keeps the heap order and adds exactly the pushed entry. -/
+theorem heap_push (h : Heap EDF.Entry) (e : EDF.Entry) (hord : Ordered EDF.less h.elements h.size) :
+    let g := push EDF.less h e
+    Ordered EDF.less g.elements g.size ∧ g.size = h.size + 1 ∧ SameSet (upd h.elements h.size e) g.elements (h.size + 1) :=
+  push_spec less_weakOrder h e hord
+
+-- non-vacuity: three entries pushed in descending deadline order end with the earliest at the root
+private def e3 (d : Rat) (q : Int) : EDF.Entry := { item := q.toNat, deadline := d, weight := 1, queued := q }
+example : (peek (push EDF.less (push EDF.less (push EDF.less ⟨fun _ => default, 0⟩ (e3 3 1)) (e3 2 2)) (e3 1 3))).item = 3 := by
+  decide +kernel
+example : (peek (fix EDF.less { (push EDF.less (push EDF.less (push EDF.less ⟨fun _ => default, 0⟩ (e3 1 1)) (e3 2 2)) (e3 3 3)) with
+    elements := upd (push EDF.less (push EDF.less (push EDF.less ⟨fun _ => default, 0⟩ (e3 1 1)) (e3 2 2)) (e3 3 3)).elements 0 (e3 5 4) } 0)).item = 2 := by
+  decide +kernel
+
+end Heap
 
 end MosnVerif.Props.C06
